@@ -588,6 +588,16 @@ class Model:
                 pats += self.opt[k]
         return any(n == p or fnmatch.fnmatchcase(n, p) for p in pats)
 
+    def requested_by(self, info):
+        n = info["name"]
+        if "E" in self.opt:
+            return "-E"
+        if self.listed(n):
+            return "export-list"
+        if n in self.dep_refs or n in self.dep_defs:
+            return "library-refers"
+        return "shared" if self.shared else "nothing"
+
     def export_class(self, info):
         """('required'|'forbidden'|'open', reason)."""
         n = info["name"]
@@ -599,7 +609,10 @@ class Model:
         if info["import_"]:
             return "open", "import"
         if info["vis"] in (VIS["hidden"], VIS["internal"]):
-            return "forbidden", "vis=" + VISNAME[info["vis"]]
+            src = ""
+            if info["winner"][1].vis != info["vis"]:
+                src = "-from-reference" if VISNAME[info["vis"]] in info["refvis"] else "-from-losing-definition"
+            return "forbidden", "vis=" + VISNAME[info["vis"]] + src
         lb = self.localised_by(info)
         if lb:
             return "forbidden", "localised=" + lb
@@ -801,6 +814,20 @@ def one_case(ctx, i, pinned=None):
             else:
                 lay_by_unit[(base, None)] = f
     retain = M.opt.get("retain")
+
+    def section_kept(info):
+        """True/False from wild's layout file for the winning definition's input section; None if unknown."""
+        if not layout or info["winner"] is None:
+            return None
+        un, isy = info["winner"]
+        if isy.shndx in (E.SHN_ABS, E.SHN_COMMON):
+            return None
+        where = M.unit_where[un]
+        lf = lay_by_unit.get((un + ".o", None) if where == "obj" else (where, un + ".o"))
+        if lf is None or isy.shndx >= len(lf["sections"]):
+            return None
+        return lf["sections"][isy.shndx] is not None
+
     tls_seg = W["elf"].segs(E.PT_TLS)
     # ---- per-name checks ----------------------------------------------------------------------
     for n in case["order"]:
@@ -820,19 +847,29 @@ def one_case(ctx, i, pinned=None):
             ctx.note("skipped:unresolved-weak-undefined")
             continue
         shape = sym_shape(info)
+        flagged = set()
         ctx.note_set("shapes", shape + ":" + "+".join(info["defvis"]) + ("/ref:" + "+".join(info["refvis"]) if info["refvis"] else ""))
+        cls, why = M.export_class(info)
+        w_in, l_in = n in W["dyn_def"], n in Lo["dyn_def"]
         if W["has_symtab"] and Lo["has_symtab"]:
             # presence (differential)
             if (wsy is None) != (lsy is None):
                 refs_agree = Do is None or not Do["has_symtab"] or ((dsy is None) == (lsy is None))
                 if not refs_agree:
                     ctx.note("open:presence(ld!=lld)")
-                elif info["common"] and wsy is None and not info["strong_ref"] and M.export_class(info)[0] != "required":
-                    # an unreferenced common that nothing exports: wild does not allocate it at all
+                elif info["common"] and wsy is None and (case["gc"] or not info["strong_ref"]) and cls != "required":
+                    # a common nothing (live) refers to and nothing exports: wild does not allocate it at all
                     ctx.note("open:unreferenced-common-not-allocated")
+                elif case["gc"] and (wsy is not None or section_kept(info) is False):
+                    # the linkers' garbage collectors differ on this section (C05's subject): wild kept a section the
+                    # references dropped, or dropped one they kept and its symbol went with it
+                    ctx.note("open:gc-precision-differs:" + ("wild-keeps-more" if wsy is not None else "wild-keeps-less"))
                 elif info["import_"]:
                     # copy-relocated library data: where the copy is described is linker business
                     ctx.note("open:import-symtab-entry")
+                elif wsy is not None and cls == "forbidden" and w_in and not l_in:
+                    # kept only because it is (wrongly) exported, which is reported below
+                    ctx.note("same-cause:retained-because-wrongly-exported")
                 else:
                     lb = M.localised_by(info) if info["winner"] else None
                     sig = (f"symtab-{'missing' if wsy is None else 'extra'}:{shape}:vis={VISNAME[info['vis']]}:"
@@ -851,29 +888,28 @@ def one_case(ctx, i, pinned=None):
                     if da is not None and da[k] != la[k]:
                         ctx.note(f"open:{k}(ld!=lld)")
                         continue
-                    lb = M.localised_by(info) if info["winner"] else None
-                    if k == "vis":
-                        sig = (f"symtab-vis:def={'+'.join(info['defvis'])}:ref={'+'.join(info['refvis']) or '-'}:"
-                               f"wild={wa[k]}:ld={la[k]}")
-                    elif k == "bind":
-                        sig = (f"symtab-bind:vis={VISNAME[info['vis']]}:localised={lb or 'no'}:{outclass}:"
-                               f"wild={wa[k]}:ld={la[k]}")
-                    elif k == "size":
-                        sig = f"symtab-size:{shape}:wild={wa[k]}:ld={la[k]}"
-                    else:
-                        sig = f"symtab-{k}:{shape}:{outclass}:wild={wa[k]}:ld={la[k]}"
-                    viol(sig, f"{n}: .symtab {k} is {wa[k]} in wild's output, {la[k]} in GNU ld's"
-                         + (" and lld's" if da is not None else "") + f" (wild {wa}, ld {la})", info={"name": n})
+                    if k == "vis" and ((wa["bind"] == "LOCAL" and wa["vis"] == "DEFAULT") or
+                                       (la["bind"] == "LOCAL" and la["vis"] == "DEFAULT" and wa["vis"] == VISNAME[info["vis"]].upper())):
+                        # GNU ld clears the visibility of a symbol it makes local; lld keeps it
+                        ctx.note("open:vis-cleared-on-local-symbol(ld's-own-convention)")
+                        continue
+                    flagged.add(k)
+                    viol(attr_sig(k, info, M, wa[k], outclass), f"{n}: .symtab {k} is {wa[k]} in wild's output, {la[k]} in GNU ld's"
+                         + (" and lld's" if da is not None else "") + f" (wild {wa}, ld {la}; definitions {info['defvis']}, "
+                         f"references {info['refvis']})", info={"name": n})
         # model checks on wild's entry (calibrated on ld's entry)
         if wsy is not None and info["winner"] is not None:
             un, isy = info["winner"]
             msgs_w = model_entry(W["elf"], wsy, info, isy, M)
             msgs_l = dict(model_entry(Lo["elf"], lsy, info, isy, M)) if lsy is not None else {}
+            wa = attrs(W["elf"], wsy)
             for rule, detail in msgs_w:
+                if rule in flagged:
+                    continue         # the same attribute already differs from both reference linkers
                 if rule in msgs_l:
                     ctx.note(f"open:model-{rule}(ld-too)")
                     continue
-                viol(f"model-{rule}:{shape}", f"{n}: {detail}", info={"name": n})
+                viol(attr_sig(rule, info, M, wa[rule], outclass), f"{n}: {detail}", info={"name": n})
             bad = value_in_section(W["elf"], wsy)
             if bad:
                 viol(f"value-outside-section:{shape}", f"{n}: {bad}")
@@ -898,21 +934,19 @@ def one_case(ctx, i, pinned=None):
             elif isy.shndx == E.SHN_ABS and wsy.value != isy.value:
                 viol("value-wrong:abs", f"{n}: absolute symbol value {wsy.value:#x}, input says {isy.value:#x}")
         # ---- .dynsym ------------------------------------------------------------------------------
-        cls, why = M.export_class(info)
-        w_in, l_in = n in W["dyn_def"], n in Lo["dyn_def"]
         d_in = (n in Do["dyn_def"]) if Do else None
         ctx.note("export-class:" + cls)
         if cls == "required" and not w_in:
-            if not l_in:
-                ctx.note("open:required-export-missing-in-ld-too")
+            if not l_in or d_in is False:
+                ctx.note("open:required-export-missing-in-a-reference-too")
             else:
-                viol(f"dynsym-missing:{shape}:vis={VISNAME[info['vis']]}:{why}:{outclass}",
+                viol(f"dynsym-missing:{info['kind']}:vis={VISNAME[info['vis']]}:{why}:{outclass}",
                      f"{n} must be exported ({why}) and GNU ld exports it, but it is not defined in wild's .dynsym")
         elif cls == "forbidden" and w_in:
-            if l_in:
-                ctx.note("open:forbidden-export-present-in-ld-too")
+            if l_in or d_in:
+                ctx.note("open:forbidden-export-present-in-a-reference-too")
             else:
-                viol(f"dynsym-extra:{shape}:{why}:{outclass}",
+                viol(f"dynsym-extra:{why}" + ("" if why.startswith("vis=") else f":requested-by={M.requested_by(info)}"),
                      f"{n} must not be exported ({why}); GNU ld does not export it, wild's .dynsym defines it")
         elif w_in != l_in and cls == "open":
             if d_in is not None and d_in != l_in:
@@ -940,6 +974,10 @@ def one_case(ctx, i, pinned=None):
         if w_in and wsy is not None:
             t = W["dyn_def"][n]
             diffs = [k for k in ("value", "size", "type", "shndx") if getattr(t, k) != getattr(wsy, k)]
+            if info["kind"] == "ifunc" and diffs:
+                # an exported ifunc may be described as a FUNC at its PLT entry in .dynsym (GNU ld does so in both tables)
+                ctx.note("open:ifunc-dynsym-entry-is-plt-func")
+                diffs = [k for k in diffs if k == "size"]
             if t.vis != wsy.vis:
                 diffs.append("vis")
             if diffs:
@@ -948,7 +986,7 @@ def one_case(ctx, i, pinned=None):
         ncheck[0] += 1
     # non-owned names in .dynsym of a shared object / exe: nothing hidden may leak
     for sy in W["elf"].dynsym():
-        if sy.name and sy.defined and sy.vis in (E.STV_HIDDEN, E.STV_INTERNAL):
+        if sy.name and sy.name not in owned and sy.defined and sy.vis in (E.STV_HIDDEN, E.STV_INTERNAL):
             viol("dynsym-hidden-entry", f".dynsym defines {sy.name} with visibility {VISNAME[sy.vis]}")
             break
     feats = sorted({M.names[n]["shape"] for n in M.names} | {o[0] for o in case["opts"]})
@@ -960,6 +998,24 @@ def one_case(ctx, i, pinned=None):
                  if i is not None and isinstance(i, int) and i < 3 else None)
     else:
         ctx.note("cases-with-violations")
+
+
+def attr_sig(k, info, M, got, outclass):
+    """One signature per (attribute, cause), whichever oracle noticed it."""
+    un, isy = info["winner"]
+    lb = M.localised_by(info)
+    if k == "vis":
+        if got == VISNAME[isy.vis].upper() and isy.vis != info["vis"]:
+            return f"symtab-vis:merged={VISNAME[info['vis']]}:wild=winning-definition's-own"
+        return f"symtab-vis:winner={VISNAME[isy.vis]}:merged={VISNAME[info['vis']]}:wild={got}"
+    if k == "bind":
+        cause = ("localised-by-" + lb) if lb else ("vis=" + VISNAME[info["vis"]])
+        return f"symtab-bind:{cause}:wild={'input-binding-kept' if got == BINDNAME.get(isy.bind) else got}"
+    if k == "size":
+        sizes = sorted({sy.size for _, sy in info["occ"] if sy.defined})
+        rel = "winner" if got == isy.size else ("other-definition" if got in sizes else "neither")
+        return f"symtab-size:{sym_shape(info)}:wild-has-size-of={rel}"
+    return f"symtab-{k}:{sym_shape(info)}:{outclass}:wild={got}"
 
 
 def model_entry(e, sy, info, isy, M):
@@ -1062,6 +1118,14 @@ def pinned_cases():
             "gb2_f": _sym("func", "single", [_d("u0")], [_r("u1", "call", vis="hidden")]),
             "gb3_o": _sym("object", "single", [_d("u1")], [_r("u0", "got")]),
         }, start_refs=[("ga0_f", "call"), ("gb3_o", "got")] if k == "pie" else ())
+    # weak definition first, strong definition second, hidden reference third: must not be exported
+    u3 = [dict(name=f"u{i}", where="obj", fsec=True) for i in range(3)]
+    mk("hidden-reference-weak-strong", "shared", {
+        "ga0_fw": _sym("func", "weak+strong", [_d("u0", bind="weak"), _d("u1", size=16)], [_r("u2", "quad", vis="hidden")]),
+        "ga1_f": _sym("func", "single", [_d("u0")], [_r("u2", "quad", vis="hidden")]),
+        "gb2_o": _sym("object", "single", [_d("u1")], [_r("u2", "quad")]),
+        "gb3_o": _sym("object", "single", [_d("u2")], [_r("u0", "got")]),
+    }, units=u3)
     # --exclude-libs
     ux = [dict(name="u0", where="obj", fsec=True), dict(name="xm0", where="libx.a", fsec=True)]
     for k, opts in (("shared", [("xl", "ALL")]), ("pie", [("xl", "libx.a"), ("E",)])):
@@ -1088,6 +1152,89 @@ def pinned_cases():
     return out
 
 
+def all_values_in_sections(e):
+    """value_in_section over every defined symbol of .symtab; returns list of (name, text)."""
+    bad = []
+    loads = e.loads()
+    lo = min((p.vaddr for p in loads), default=0)
+    first = min((s.addr for s in e.sections if s.alloc and s.addr), default=0)
+    for sy in e.symtab():
+        if sy.type in (E.STT_SECTION, E.STT_FILE) or not sy.name:
+            continue
+        if sy.shndx in (E.SHN_ABS, E.SHN_UNDEF, E.SHN_COMMON) or sy.shndx >= len(e.sections):
+            continue
+        if lo <= sy.value < first:
+            continue     # a symbol for the file/program headers (__ehdr_start ...): no section contains them
+        s_ = e.sections[sy.shndx]
+        if sy.type == E.STT_TLS:
+            t = value_in_section(e, sy)
+            if t:
+                bad.append((sy.name, t))
+            continue
+        # linker-defined boundary symbols may sit at either end of the section they name
+        if not (s_.addr <= sy.value <= s_.addr + s_.size):
+            bad.append((sy.name, f"value {sy.value:#x} outside section {s_.name} [{s_.addr:#x},{s_.addr + s_.size:#x}]"))
+    return bad
+
+
+def program_case(ctx, j):
+    """Structure rules on real gcc-driven links of proggen programs (crt files, libc, C++)."""
+    from vlib import proggen as pg
+    r = rng("C31-prog", ctx.seed, j)
+    prog = pg.gen_program(r)
+    cm = r.choice(pg.CODE_MODELS)
+    kind = r.choice(prog.kinds(cm))
+    gc = r.random() < 0.5
+    extra = r.choice([(), (), ("-Wl,-S",), ("-Wl,-E",), ("-Wl,-x",)])
+    built = prog.build(ctx, cm, shared=(kind == "shared"))
+    outs = {}
+    for linker in ("ld", "wild"):
+        d = ctx.scratch.dir("prog", j, linker)
+        lr = pg.link_and_run(ctx, linker, prog, built, kind, extra_link_args=extra, workdir=d, gc=gc, run_it=False,
+                             link_timeout=600)
+        if lr.link is None or lr.link.timed_out or (lr.lib_link is not None and lr.lib_link.timed_out):
+            return ctx.inconclusive("watchdog: program link")
+        if not lr.link.ok or (lr.lib_link is not None and not lr.lib_link.ok):
+            return ctx.inconclusive(f"program does not link with {linker}")
+        outs[linker] = [lr.out] + ([lr.lib] if lr.lib else [])
+    ctx.note("program-kind:" + kind)
+    nv = 0
+    for wp, lp in zip(outs["wild"], outs["ld"]):
+        we, le = Elf(wp), Elf(lp)
+        which = "lib" if wp.endswith(".so") else "exe"
+        ld_rules = {r_ for r_, _ in structural(le)}
+        for rule, detail in structural(we):
+            if rule in ld_rules:
+                ctx.inconclusive(f"rule {rule} also broken by GNU ld output")
+                continue
+            nv += 1
+            LIM.violation(f"structure:{rule}", f"gcc-linked {kind} program ({which}): {detail}", case=f"prog-{j}",
+                          files={"how.txt": f"proggen program rng=('C31-prog',{ctx.seed},{j}) code model {cm} kind {kind} gc={gc} extra={extra}\n"
+                                 + pg.command_text(ctx, "wild", prog, lr), os.path.basename(wp): wp})
+        lbad = all_values_in_sections(le)
+        wbad = all_values_in_sections(we)
+        lnames = {n for n, _ in lbad}
+        if any(n in lnames for n, _ in wbad):
+            ctx.note("open:value-in-section-broken-by-ld-for-the-same-name")
+        wbad = [(n, t) for n, t in wbad if n not in lnames]
+        if wbad:
+            nv += 1
+            name, text = wbad[0]
+            synth = "owned" if name.startswith(("pg_", "u", "rt_")) else "other"
+            LIM.violation("value-outside-section:program", f"gcc-linked {kind} program ({which}): {name}: {text} ({len(wbad)} symbols)",
+                          case=f"prog-{j}", files={"how.txt": pg.command_text(ctx, "wild", prog, lr), os.path.basename(wp): wp},
+                          info={"symbols": [n for n, _ in wbad[:20]], "class": synth})
+        for sy in we.dynsym():
+            if sy.name and sy.defined and sy.vis in (E.STV_HIDDEN, E.STV_INTERNAL):
+                nv += 1
+                LIM.violation("dynsym-hidden-entry", f"gcc-linked {kind} program ({which}): .dynsym defines {sy.name} with visibility "
+                              f"{VISNAME[sy.vis]}", case=f"prog-{j}", files={os.path.basename(wp): wp})
+                break
+        ctx.note("program-symbols-checked", len(we.symtab()))
+    if nv == 0:
+        ctx.held(fingerprint=f"prog:{sha(repr(sorted(prog.features)) + cm + kind + str(gc) + repr(extra))[:12]}:{j}", nontrivial=True)
+
+
 def main(ctx):
     global LIM
     LIM = SigLimiter(ctx, 2)
@@ -1101,14 +1248,17 @@ def main(ctx):
                        "the statement"]
     tools.wild()
     n = ctx.pick(70, 1500)
-    jobs = [("p", p) for p in pinned_cases()] + [("g", i) for i in range(n)]
+    jobs = [("p", p) for p in pinned_cases()] + [("g", i) for i in range(n)] + [("P", j) for j in range(ctx.pick(8, 80))]
     if ctx.replay is not None:
         c = str(ctx.replay.get("case"))
-        jobs = [j for j in jobs if (j[0] == "p" and c == f"pinned-{j[1]['id']}") or (j[0] == "g" and c == str(j[1]))]
+        jobs = [j for j in jobs if (j[0] == "p" and c == f"pinned-{j[1]['id']}") or (j[0] == "g" and c == str(j[1]))
+                or (j[0] == "P" and c == f"prog-{j[1]}")]
 
     def go(j):
         if j[0] == "p":
             one_case(ctx, None, pinned=j[1])
+        elif j[0] == "P":
+            program_case(ctx, j[1])
         else:
             one_case(ctx, j[1])
     pmap(go, jobs)
